@@ -7,7 +7,7 @@ import (
 
 func clpOpts(c Ctx, q, t int) HistOpts {
 	return HistOpts{Histories: c.N(q, t), Steps: 36, Tokens: []string{"cdash", "ceth", "cusdc"}, Users: 4,
-		Weights: DefaultWeights, Locks: true, Lppd: true, Rewards: true, Fees: true, Pmtp: true, Whitelist: true}
+		Weights: DefaultWeights, Locks: true, Lppd: true, Rewards: true, Fees: true, Pmtp: true, Whitelist: true, Epochs: true}
 }
 
 const histRule = "one case = one observed DeliverTx / EndBlock / BeginBlock transition of the real app inside generated multi-block histories " +
@@ -33,7 +33,8 @@ func C01(c Ctx) *report.Report {
 	rep := report.New("C01", c.Seed, c.Tier)
 	rng := chain.NewRng(c.Seed)
 	next := 0
-	hs := RunClpHistories(c, rep, rng, clpOpts(c, 40, 1500), &next)
+	hs := []History{ScriptF2(&next)} // corpus first
+	hs = append(hs, RunClpHistories(c, rep, rng, clpOpts(c, 40, 1500), &next)...)
 	for _, h := range hs {
 		MonSolvency(rep, h)
 		if len(rep.Samples) < 2 && len(h.Steps) > 3 {
